@@ -268,6 +268,7 @@ Definition list_cols_l_count : N := 6.
 Definition list_cols_lv_count : N := 7.
 Definition list_cols_v_count : N := 8.
 Definition list_cols_vv_count : N := 9.
+Definition MAX_PROGRESS_LEN : N := 58.
 
 Definition crc16_table : list N :=
   [0; 49345; 49537; 320; 49921; 960; 640; 49729; 50689; 1728; 1920; 51009;
@@ -652,3 +653,9 @@ Definition list_month_10_len : N := 3.
 Definition list_month_11 : list N :=
   [68; 101; 99].
 Definition list_month_11_len : N := 3.
+Definition PACKAGE_NAME : list N :=
+  [76; 104; 97; 115; 97].
+Definition PACKAGE_NAME_len : N := 5.
+Definition PACKAGE_VERSION : list N :=
+  [48; 46; 52; 46; 48].
+Definition PACKAGE_VERSION_len : N := 5.
